@@ -1015,19 +1015,20 @@ impl Entry {
             )
         };
 
+        // the entry with the new relation, as a tree of its own (replace_with() would
+        // return the green tree of the whole field the entry lives in)
         let new_root = SyntaxNode::new_root_mut(
-            self.0.replace_with(
-                self.0
-                    .green()
-                    .splice_children(position..position, new_children),
-            ),
+            self.0
+                .green()
+                .splice_children(position..position, new_children),
         );
 
         if let Some(parent) = self.0.parent() {
-            parent.splice_children(self.0.index()..self.0.index() + 1, vec![new_root.into()]);
+            let index = self.0.index();
+            parent.splice_children(index..index + 1, vec![new_root.into()]);
             self.0 = parent
                 .children_with_tokens()
-                .nth(self.0.index())
+                .nth(index)
                 .unwrap()
                 .clone()
                 .into_node()
